@@ -38,6 +38,9 @@ NAMES = {
 }
 
 
+WKS_NAMES = [v[0] for v in NAMES.values() if v[2] is not None]
+
+
 def filler(j):
     return b"urn:nfc:sn:fill%d" % j
 
@@ -276,6 +279,21 @@ class Net(object):
             sx.reach("close:not-last-socket")
         return "closed"
 
+    def close_again(self, i):
+        """close() of a socket that is closed already: whatever sits at its
+        old address now is not its business (invariants() compares the
+        table afterwards)"""
+        sx, ref = self.sx, self.ref
+        s, r = self.socks[i], ref.socks[i]
+        if r.open:
+            return "skip"
+        try:
+            self.A.close(s)
+        except nfc.llcp.Error:
+            pass
+        sx.reach("close:again")
+        return "closed-again"
+
     # ---- exchanges with the remote device
     def remote(self):
         self.nB += 1
@@ -377,17 +395,24 @@ class Net(object):
         sx, ref = self.sx, self.ref
         name = NAMES[key][0] if isinstance(key, str) else key
         B = self.remote()
-        try:
-            B.resolve(name)
-            sx.check(False, "resolve:setup")
-        except envl.WouldBlock:
-            pass
-        self.transfer(B, self.A, "resolve")
-        self.transfer(self.A, B, "resolve")
+        wellformed = NAMES[key][1] if isinstance(key, str) else True
+        if wellformed and name not in WKS_NAMES and sx.pick(
+                "r%d.local" % self.nB, [0, 1]):
+            # the resolving device has a service of the same name itself,
+            # at another address than A can have given it
+            for j, n in enumerate([filler(90), filler(91), name]):
+                B.bind(B.socket(LDL), n)
+            sx.reach("resolve:name-also-local")
         try:
             got = B.resolve(name)
+            # (a cached/own answer instead of asking: judged below)
         except envl.WouldBlock:
-            sx.check(False, "resolve:no-answer")
+            self.transfer(B, self.A, "resolve")
+            self.transfer(self.A, B, "resolve")
+            try:
+                got = B.resolve(name)
+            except envl.WouldBlock:
+                sx.check(False, "resolve:no-answer")
         want = ref.names.get(name, 0)
         late = ":name-of-closed-socket" if name in ref.released else ""
         sx.check(got == want, "resolve:wrong-address" + late)
@@ -486,12 +511,14 @@ OPS_THOROUGH = OPS_QUICK + [
     ["new_name", "DLC", "bad2"], ["new_name", "DLC", "bad3"],
     ["new_name", "DLC", "c"], ["rebind", "addr"], ["resolve", "bad1"],
     ["resolve", "b"], ["connect", "bad3"], ["datagram_raw"], ["unbound_new", "DLC"],
+    ["close_again"],
 ]
 
 
 OPS_TAIL = [
     ["new_none", "LDL"], ["new_addr", "RAW"], ["new_name", "DLC", "snep"],
     ["new_name", "DLC", "a"], ["rebind", "name"], ["listen"], ["close"],
+    ["close_again"],
     ["datagram"], ["resolve", "a"], ["connect", "a"], ["connect", "snep"],
 ]
 
@@ -503,14 +530,14 @@ OPS_SECOND = [
 
 
 def needs_socket(op):
-    return op[0] in ("rebind", "listen", "close")
+    return op[0] in ("rebind", "listen", "close", "close_again")
 
 
 def do_op(n, step, op, narrow=False):
     sx = n.sx
     tag = "s%d" % step
     k = op[0]
-    if needs_socket(op):
+    if needs_socket(op) and k != "close_again":
         live = [i for i, r in enumerate(n.ref.socks)
                 if r.open and (k == "close" or not r.dead)]
         if not live:
@@ -540,6 +567,11 @@ def do_op(n, step, op, narrow=False):
         return n.listen(i)
     if k == "close":
         return n.close(i)
+    if k == "close_again":
+        dead = [j for j, r in enumerate(n.ref.socks) if not r.open]
+        if not dead:
+            return "skip"
+        return n.close_again(dead[-1])
     if k == "datagram":
         lo, hi = (32, 34) if narrow else sx.pick(tag + ".win", WINDOWS_DSAP)
         return n.datagram(sx.int(tag + ".dsap", lo, hi), [1], tag)
@@ -738,7 +770,8 @@ def lifecycle(sx, key, k):
     for j in range(k):
         op = sx.pick("op%d" % step, [None, "close-listener", "close-accepted",
                                      "connect", "resolve", "bind-addr",
-                                     "bind-same-name", "datagram"])
+                                     "bind-same-name", "datagram",
+                                     "close-again"])
         if op is None:
             break
         if op == "close-listener":
@@ -749,6 +782,11 @@ def lifecycle(sx, key, k):
             if not n.ref.socks[acc].open:
                 break
             out.append(n.close(acc))
+        elif op == "close-again":
+            dead = [j for j in (ls, acc) if not n.ref.socks[j].open]
+            if not dead:
+                break
+            out.append(n.close_again(dead[-1]))
         elif op == "connect":
             out.append(n.connect_by_name(key))
         elif op == "resolve":
@@ -763,6 +801,136 @@ def lifecycle(sx, key, k):
         step += 1
     sx.reach("lifecycle-end")
     return out
+
+
+def reclose(sx, t1, t2):
+    """close() twice on one socket while its old address has been handed to
+    another socket in between"""
+    n = Net(sx)
+    first = sx.pick("first", ["none", "addr", "name"])
+    s1 = n.socket(t1)
+    if first == "none":
+        n.bind_none(s1)
+    elif first == "addr":
+        n.bind_addr(s1, 32 if t1 != "RAW" else sx.pick("a1", [20, 32]))
+    else:
+        n.bind_name(s1, "a")
+    a1 = n.ref.socks[s1].addr
+    n.invariants(0)
+    n.close(s1)
+    s2 = n.socket(t2)
+    # the successor asks for the same address / the next free one
+    if first == "name":
+        n.bind_name(s2, sx.pick("n2", ["a", "b"]))
+    elif sx.pick("how2", ["none", "addr"]) == "none" and a1 >= 32:
+        n.bind_none(s2)
+    else:
+        n.bind_addr(s2, a1) if (a1 >= 32 or t2 == "RAW") else n.bind_none(s2)
+    if t2 == "DLC" and sx.pick("listen2", [0, 1]):
+        n.listen(s2)
+    n.invariants(1)
+    out = [n.close_again(s1)]
+    n.invariants(2)
+    # the successor is still there, for the peer and for the table
+    a2 = n.ref.socks[s2].addr
+    step = 3
+    for j in range(2):
+        op = sx.pick("op%d" % step, [None, "datagram", "bind-none", "bind-addr",
+                                     "resolve", "connect", "bind-name",
+                                     "close-again", "close2"])
+        if op is None:
+            break
+        if op == "datagram":
+            out.append(n.datagram(a2 if a2 is not None else 32, [2], "s%d" % step))
+        elif op == "bind-none":
+            out.append(n.bind_none(n.socket("LDL")))
+        elif op == "bind-addr":
+            out.append(n.bind_addr(n.socket("RAW"), a1))
+        elif op == "resolve":
+            out.append(n.resolve("a"))
+        elif op == "connect":
+            out.append(n.connect_by_name("a"))
+        elif op == "bind-name":
+            out.append(n.bind_name(n.socket("DLC"), "a"))
+        elif op == "close-again":
+            out.append(n.close_again(s1))
+        elif op == "close2":
+            if not n.ref.socks[s2].open:
+                break
+            out.append(n.close(s2))
+        n.invariants(step)
+        step += 1
+    sx.reach("reclose-end")
+    return out
+
+
+def cross_resolve(sx, kind):
+    """both devices have a service of the same (not well-known) name, at
+    different addresses: A resolves the name and talks to what it got"""
+    n = Net(sx)
+    A, B = n.A, n.mk()
+    X = NAMES["a"][0]
+    mine = sx.pick("mine", ["same", "other", "nothing"])
+    if mine == "same":
+        n.bind_name(n.socket("LDL"), "a")
+    elif mine == "other":
+        n.bind_name(n.socket("LDL"), "b")
+    # B: another named service first, then X (or not at all)
+    theirs = sx.pick("theirs", ["second", "first", "absent"])
+    if theirs == "second":
+        B.bind(B.socket(LDL), filler(70))
+    bx = None
+    if theirs != "absent":
+        bx = B.socket(DLC if kind == "connect" else LDL)
+        B.bind(bx, X)
+        if kind == "connect":
+            B.listen(bx, 1)
+        else:
+            B.setsockopt(bx, nfc.llcp.SO_RCVBUF, 2)
+    other = B.socket(LDL)
+    B.bind(other)
+    want = B.getsockname(bx) if bx is not None else 0
+    try:
+        got = A.resolve(X)
+    except envl.WouldBlock:
+        n.transfer(A, B, "cross-resolve")
+        n.transfer(B, A, "cross-resolve")
+        try:
+            got = A.resolve(X)
+        except envl.WouldBlock:
+            sx.check(False, "cross-resolve:no-answer")
+    sx.check(got == want, "cross-resolve:not-the-remote-address")
+    n.invariants(0)
+    if not got:
+        sx.reach("cross-resolve:absent")
+        return [mine, theirs, 0]
+    sx.reach("cross-resolve:found")
+    if kind == "sendto":
+        sa = A.socket(LDL)
+        A.bind(sa)
+        m = sx.bytes("m", sx.pick("len", [0, 3]))
+        A.sendto(sa, m, got, DONTWAIT)
+        n.transfer(A, B, "cross-sendto")
+        sx.check(not B.poll(other, "recv", 0.0), "cross-sendto:delivered-to-wrong-socket")
+        if not B.poll(bx, "recv", 0.0):
+            sx.check(False, "cross-sendto:did-not-reach-the-named-socket")
+        data, sender = B.recvfrom(bx)
+        sx.check(same(sx, data, m), "cross-sendto:payload-changed")
+        sx.check(sender == A.getsockname(sa), "cross-sendto:source-address-changed")
+    else:
+        sa = A.socket(DLC)
+        try:
+            A.connect(sa, got)
+            sx.check(False, "cross-connect:setup")
+        except envl.WouldBlock:
+            pass
+        n.transfer(A, B, "cross-connect")
+        if len(bx.recv_queue) != 1:
+            sx.check(False, "cross-connect:did-not-reach-the-named-socket")
+        c = B.accept(bx)
+        sx.check(c.peer == A.getsockname(sa) and c.addr == want,
+                 "cross-connect:accepted-wrong-peer")
+    return [mine, theirs, got]
 
 
 # ----------------------------------------------------------------------------
@@ -795,6 +963,13 @@ def partitions(tier):
     for sc in ("via-B", "raw"):
         parts.append(dict(name="delivery:" + sc, fn="delivery",
                           params=dict(scenario=sc)))
+    for t1 in ("LDL", "DLC", "RAW"):
+        for t2 in ("LDL", "DLC"):
+            parts.append(dict(name="reclose:%s:%s" % (t1, t2), fn="reclose",
+                              params=dict(t1=t1, t2=t2)))
+    for kind in ("sendto", "connect"):
+        parts.append(dict(name="cross-resolve:" + kind, fn="cross_resolve",
+                          params=dict(kind=kind)))
     for key in ("a", "snep"):
         parts.append(dict(name="lifecycle:" + key, fn="lifecycle",
                           params=dict(key=key, k=3 if tier == "quick" else 4)))
@@ -808,9 +983,11 @@ MUST_REACH = ["history-end", "EAGAIN", "bind-addr-ok", "bind-addr:EFAULT",
               "datagram:delivered", "datagram:no-receiver", "resolve:found",
               "resolve:absent", "connect:accepted", "connect:absent",
               "reuse-after-close", "exhaust-dynamic-end", "exhaust-named-end",
-              "lifecycle-end"]
+              "lifecycle-end", "close:again", "reclose-end",
+              "resolve:name-also-local", "cross-resolve:found",
+              "cross-resolve:absent"]
 BOUNDS = {
-    "quick": "histories of 1 fixed operation (15 kinds) + up to 2 picked from 11 (socket+bind none/address/name for the three socket kinds, second bind of a bound socket, listen, close, datagram from a second controller, resolve and connect-by-name through collect()/dispatch()), addresses symbolic inside windows {-1..1, 3..5, 31..33, 63..64}; bind(address) with the address symbolic over -1..64 after four table prefixes (fresh, populated, after close, all 48 bindable addresses taken) for each socket kind, bound twice and re-bound after close; all 32 dynamic / 16 named addresses taken, one closed, then a suffix of up to 2 operations; datagrams with symbolic DSAP 0..63, SSAP 0..63 and payload octets (lengths 0..3, one or two datagrams) against a populated table; named listener + accepted connection closed in any order with up to 3 operations; names from a fixed alphabet of 8 (+ 17 filler names), given as bytes or text",
+    "quick": "histories of 1 fixed operation (15 kinds) + up to 2 picked from 11 (socket+bind none/address/name for the three socket kinds, second bind of a bound socket, listen, close, datagram from a second controller, resolve and connect-by-name through collect()/dispatch()), addresses symbolic inside windows {-1..1, 3..5, 31..33, 63..64}; bind(address) with the address symbolic over -1..64 after four table prefixes (fresh, populated, after close, all 48 bindable addresses taken) for each socket kind, bound twice and re-bound after close; all 32 dynamic / 16 named addresses taken, one closed, then a suffix of up to 2 operations; datagrams with symbolic DSAP 0..63, SSAP 0..63 and payload octets (lengths 0..3, one or two datagrams) against a populated table; named listener + accepted connection closed in any order (also twice) with up to 3 operations; close() repeated on a socket whose address was re-assigned in between (3 x 2 socket kinds, bind by none/address/name) + up to 2 operations; both devices binding the same service name at different addresses, A resolving it and sending a datagram / connecting to the answer; resolve with the name also bound on the resolving device; names from a fixed alphabet of 8 (+ 17 filler names), given as bytes or text",
     "thorough": "as quick with histories of 2 fixed (26 x 7) + up to 2 picked operations, suffixes of up to 3/4 operations after exhaustion and up to 4 in the listener life cycle",
 }
 OUTSIDE = ["operations on closed sockets", "service names outside the alphabet (the name syntax check is a regular expression on concrete bytes)",
